@@ -100,7 +100,11 @@ func testdataDocs() []corpusDoc {
 	if testdataCache != nil {
 		return testdataCache
 	}
-	files, _ := filepath.Glob("/repo/testdata/*")
+	repo := os.Getenv("VERIF_REPO")
+	if repo == "" {
+		repo = "/repo"
+	}
+	files, _ := filepath.Glob(repo + "/testdata/*")
 	sort.Strings(files)
 	for _, f := range files {
 		var format string
